@@ -51,6 +51,11 @@ pub struct Case {
     pub bmca_phase: u64,
     pub own_class: u8,
     pub seed: u64,
+    /// (from, to) in intervals: a P2P port that is disabled by a peer-delay fault (two responders)
+    /// at the start of interval `from` and recovers by a clean exchange at the start of `to`;
+    /// Announces keep arriving and foreign-master records keep ageing in between
+    #[serde(default)]
+    pub faulty: Option<(u32, u32)>,
 }
 
 #[derive(Clone, Debug)]
@@ -72,6 +77,7 @@ pub fn run_case(rep: &mut Report, case: &Case, verbose: bool) -> bool {
     let mut b = Build::new(0x50);
     b.clock_class = case.own_class;
     b.seed = case.seed;
+    b.p2p = case.faulty.is_some();
     let Ok(built) = b.build() else { return false };
     let mut node = built.node;
     let own_clock = clock_id(0x50).0;
@@ -80,12 +86,18 @@ pub fn run_case(rep: &mut Report, case: &Case, verbose: bool) -> bool {
     enum Ev {
         Ann { master: usize, seq: u16, steps: u16 },
         Bmca,
+        Fault,
+        Recover,
     }
     let mut evs: Vec<(u64, u32, Ev)> = vec![];
     let mut order = 0u32;
     for k in 0..case.intervals as u64 {
         evs.push((k * TICKS_PER_I + case.bmca_phase, 1_000_000 + order, Ev::Bmca));
         order += 1;
+    }
+    if let Some((from, to)) = case.faulty {
+        evs.push((from as u64 * TICKS_PER_I, 0, Ev::Fault));
+        evs.push((to as u64 * TICKS_PER_I, 0, Ev::Recover));
     }
     for (mi, m) in case.masters.iter().enumerate() {
         let mut frames: Vec<(u64, u16)> = vec![];
@@ -147,6 +159,41 @@ pub fn run_case(rep: &mut Report, case: &Case, verbose: bool) -> bool {
                 }
                 rep.ev("announce_receipt");
                 receipts.push(Receipt { t, master, qualifying: steps < 255 && !m.own_identity });
+            }
+            Ev::Fault | Ev::Recover => {
+                // one Pdelay_Req; answered by two responders (fault) or one one-step responder
+                let is_fault = matches!(ev, Ev::Fault);
+                let (oc, op) = node.port_identity_bytes(0);
+                let own = Pid { clock: oc, port: op };
+                let now = 1000 * SEC + t as u128 * (SEC / TICKS_PER_I as u128);
+                let mut ok = false;
+                if let Ok(acts) = node.call(0, Call::DelayRequestTimer) {
+                    for a in acts {
+                        if let Act::SendEvent { ctx, data, .. } = a {
+                            let Ok(m) = Msg::decode(&data) else { continue };
+                            if m.hdr.msg_type != T_PDELAY_REQ {
+                                continue;
+                            }
+                            if let Some(c) = ctx {
+                                let _ = node.call(0, Call::TxTimestamp(c, time_from_units(now)));
+                            }
+                            let responders: &[u8] = if is_fault { &[0x71, 0x72] } else { &[0x71] };
+                            for r in responders {
+                                let src = Src::new(clock_id(*r).0, 1);
+                                let resp = src.pdelay_resp(m.hdr.seq, false, Ts { secs: 1000 + t / TICKS_PER_I, nanos: 500 }, own, 0);
+                                let _ = node.call(0, Call::EventRx(resp.encode(), time_from_units(now + 2000 * (1u128 << 32))));
+                            }
+                            ok = true;
+                        }
+                    }
+                }
+                let st = node.port_state(0);
+                if ok && is_fault && st == PortState::Faulty {
+                    rep.ev("port_made_faulty");
+                }
+                if ok && !is_fault && st != PortState::Faulty {
+                    rep.ev("port_recovered_from_faulty");
+                }
             }
             Ev::Bmca => {
                 if let Err(p) = node.bmca() {
@@ -239,7 +286,7 @@ pub fn run_case(rep: &mut Report, case: &Case, verbose: bool) -> bool {
     }
     // L2: a steadily announcing best master is never dropped. Judged for the best (lowest p1)
     // master among those that are well-formed; "steadily" = present in every interval from k0 on.
-    if case.own_class >= 128 && case.masters.len() <= 8 {
+    if case.own_class >= 128 && case.masters.len() <= 8 && case.faulty.is_none() {
         let wellformed: Vec<usize> = (0..case.masters.len()).filter(|&i| case.masters[i].steps < 255 && case.masters[i].late_from == 0 && !case.masters[i].own_identity && case.masters[i].mode == 0).collect();
         for &mi in &wellformed {
             let m = &case.masters[mi];
@@ -306,12 +353,13 @@ fn single(pattern: u32, phase: u64, offset: u64, seq_base: u16, seed: u64) -> Ca
         bmca_phase: phase,
         own_class: 248,
         seed,
+        faulty: None,
     }
 }
 
 pub fn run(rep: &mut Report, tier: &str, seed: u64, shard: (u32, u32), replay: Option<&str>) {
     rep.rule = "one real port, 1-3 (and 8/9) scripted masters announcing according to presence patterns over 16 announce intervals (I = 64 ticks), per-master arrival offsets, four BMCA phases, sequence ids straddling 65535->0, duplicated / re-ordered / stale sequence ids, stepsRemoved 254/255/256, own-identity senders, clockClass 248 and 6 (passive) instances; receipts and per-BMCA snapshots are checked offline; single-master patterns are enumerated (all 2^16 in thorough); distinct = distinct cases; non-trivial = the port was Slave or Passive after at least one BMCA".into();
-    rep.require(&["announce_receipt", "bmca_snapshot", "slave_after_bmca", "passive_after_bmca", "l1_checked", "l2_checked"]);
+    rep.require(&["announce_receipt", "bmca_snapshot", "slave_after_bmca", "passive_after_bmca", "l1_checked", "l2_checked", "port_made_faulty", "port_recovered_from_faulty"]);
     if let Some(path) = replay {
         let v: serde_json::Value = serde_json::from_str(&std::fs::read_to_string(path).unwrap()).unwrap();
         if let Ok(c) = serde_json::from_value::<Case>(v["case"].clone()) {
@@ -355,6 +403,21 @@ pub fn run(rep: &mut Report, tier: &str, seed: u64, shard: (u32, u32), replay: O
     rep.extra.insert("single_master_patterns_run".into(), json!(enumerated));
     rep.extra.insert("single_master_pattern_space".into(), json!(65536 * 4));
     rep.extra.insert("single_master_exhaustive".into(), json!(thorough));
+    // a port disabled by a peer-delay fault keeps ageing what it heard
+    if shard.0 == 0 {
+        for from in 0..5u32 {
+            for len in [2u32, 5, 6, 8, 10] {
+                for (pi, &ph) in phases.iter().enumerate() {
+                    for bits in [0b11u32, 0b111, 0b1011] {
+                        let shift = (from + pi as u32 % 2).saturating_sub(1);
+                        let mut case = single((bits << shift) | if pi % 2 == 0 { 0 } else { 1 << (from + len).min(15) }, ph, [16u64, 48][pi % 2], 65530, seed.wrapping_add(77 + from as u64));
+                        case.faulty = Some((from, (from + len).min(15)));
+                        count(rep, &case);
+                    }
+                }
+            }
+        }
+    }
     // multi master / hostile variants
     let n: u64 = if thorough { 300_000 } else { 8_000 };
     let budget = Budget::new(n, if thorough { 600.0 } else { 15.0 });
@@ -408,7 +471,13 @@ pub fn run(rep: &mut Report, tier: &str, seed: u64, shard: (u32, u32), replay: O
                 steps_late: 0,
             });
         }
-        let case = Case { masters, intervals: 16, bmca_phase: phases[rng.gen_range(0..4)], own_class: if rng.gen_bool(0.25) { 6 } else { 248 }, seed: rng.gen() };
+        let faulty = if rng.gen_bool(0.25) {
+            let from = rng.gen_range(0..10u32);
+            Some((from, (from + rng.gen_range(1..12)).min(15)))
+        } else {
+            None
+        };
+        let case = Case { masters, intervals: 16, bmca_phase: phases[rng.gen_range(0..4)], own_class: if rng.gen_bool(0.25) { 6 } else { 248 }, seed: rng.gen(), faulty };
         if i <= 2 {
             rep.sample(serde_json::to_value(&case).unwrap());
         }
